@@ -321,6 +321,71 @@ func c09Scenario(c c09cfg) *Scenario {
 	return sc
 }
 
+// c09Concurrent: k healthy targets whose state does not change, several clients issuing requests at the same time:
+// however the requests interleave, n requests give each target floor(n/k) or ceil(n/k).
+func c09Concurrent(k, clients, per int) *Scenario {
+	sc := &Scenario{Name: fmt.Sprintf("C09 concurrent-rotation targets=%d clients=%dx%d", k, clients, per), Horizon: 30 * time.Second}
+	const host = "a.example.com"
+	names := tnames("t", k)
+	var reqs []*ReqObs
+	sc.Run = func(w *World) {
+		reqs = nil
+		for _, n := range names {
+			w.AddTarget(n)
+		}
+		if r := w.Deploy(deployArgs("s1", names, []string{host}, nil)); r.Err != nil {
+			w.Note("setup: %v", r.Err)
+			return
+		}
+		time.Sleep(vI/2 + 50*time.Millisecond)
+		var wg vsync.WaitGroup
+		w.S.SetWindow(true)
+		for c := 0; c < clients; c++ {
+			wg.Add(1)
+			c := c
+			vsched.GoTagged("client", func() {
+				defer wg.Done()
+				for j := 0; j < per; j++ {
+					r := w.Do(ReqSpec{ID: fmt.Sprintf("c%d.%d", c, j), Host: host})
+					w.mu.Lock()
+					reqs = append(reqs, r)
+					w.mu.Unlock()
+				}
+			})
+		}
+		wg.Wait()
+		w.S.SetWindow(false)
+	}
+	sc.Check = func(w *World) []Violation {
+		var vs []Violation
+		for _, n := range w.Notes {
+			vs = append(vs, Violation{"C09", "setup", n})
+		}
+		if len(vs) > 0 || w.HadStall() {
+			return vs
+		}
+		counts := map[string]int{}
+		n := 0
+		for _, r := range reqs {
+			if !r.Done || r.Status != 200 || r.ServedBy() == "" {
+				vs = append(vs, Violation{"C09", "503-although-a-target-is-healthy", r.Summary()})
+				continue
+			}
+			counts[r.ServedBy()]++
+			n++
+		}
+		lo, hi := n/k, (n+k-1)/k
+		for _, t := range names {
+			if counts[t] < lo || counts[t] > hi {
+				vs = append(vs, Violation{"C09", "unfair-rotation concurrent-requests", fmt.Sprintf("%d concurrent requests over %d healthy targets were served %v", n, k, counts)})
+				break
+			}
+		}
+		return vs
+	}
+	return sc
+}
+
 func checkC09(t *testing.T, job *Job, res *Result) {
 	tier := job.Tier
 	if job.Replay != nil {
@@ -330,10 +395,15 @@ func checkC09(t *testing.T, job *Job, res *Result) {
 	for _, c := range c09Configs(tier) {
 		scs = append(scs, c09Scenario(c))
 	}
+	for _, x := range [][3]int{{2, 2, 1}, {2, 2, 2}, {3, 2, 2}, {3, 3, 1}} {
+		sc := c09Concurrent(x[0], x[1], x[2])
+		sc.Bounds = &Bounds{D: 2, S: 0}
+		scs = append(scs, sc)
+	}
 	b := Bounds{D: 1, S: 1, Total: 1}
 	if tier == "thorough" {
 		b = Bounds{D: 2, S: 1, Total: 2}
 	}
-	res.Rule = "configurations = 1..3 targets x per-target post-deploy probe script of length 4 over {ok, fail} (failure kinds refused/500/slow) x client threads issuing bursts of 2k+1 requests after every probe tick; per configuration every schedule within the deviation bounds; oracle: healthy set from probe results, membership, 503 when empty, strict rotation per run, probe cadence"
+	res.Rule = "configurations = 1..3 targets x per-target post-deploy probe script of length 4 over {ok, fail} (failure kinds refused/500/slow) x client threads issuing bursts of 2k+1 requests after every probe tick; per configuration every schedule within the deviation bounds; oracle: healthy set from probe results, membership, 503 when empty, strict rotation per run, probe cadence; plus 2-3 clients issuing requests concurrently at 2-3 steadily healthy targets (<=2 deviations): per-target counts within floor/ceil of n/k"
 	runS(t, job, res, "C09", scs, b, 5000)
 }
